@@ -52,6 +52,7 @@ fn main() {
             }
             let rec: Value = serde_json::from_str(&line).expect("json");
             writeln!(out, "{}", json!({"kind": "result", "i": idx, "fails": calls::replay(&rec)})).unwrap();
+            out.flush().unwrap(); // (a run under Miri may stop at any record)
         }
         writeln!(out, "{}", json!({"kind": "wide", "i": -1, "fails": calls::wide()})).unwrap();
         return;
